@@ -2,7 +2,20 @@
 
 package limiter
 
+import _interface "github.com/kubewharf/kubegateway/pkg/ratelimiter/store/interface"
+
 // Add-only accessor for the C07 harness: forget an instance in the client cache
 // (what cleanupTimeoutClient does when a heartbeat times out), so that the real
 // cleanupUnknownCondition removes its conditions synchronously.
 func (v VerifLimiter) ForgetClient(instance string) { v.R.clientCache.Delete(instance) }
+
+// WrapStore puts a wrapper around the limit store of a shard (the harness uses it to hold one
+// lookup of the upstream state condition, i.e. to park a report between that lookup and the
+// per-upstream mutex; every call is passed on to the real store).
+func (v VerifLimiter) WrapStore(shard int, wrap func(_interface.LimitStore) _interface.LimitStore) {
+	v.R.limitStoreLock.Lock()
+	defer v.R.limitStoreLock.Unlock()
+	if s, ok := v.R.limitStoreMap[shard]; ok {
+		v.R.limitStoreMap[shard] = wrap(s)
+	}
+}
